@@ -514,10 +514,11 @@ def mid(text, start_num, num_chars):
 def replace(old_text, start_num, num_chars, new_text):
     # Excel reference: https://support.microsoft.com/en-us/office/
     #   replace-replaceb-functions-8d799074-2425-4a8a-84bc-82472868878a
+    if start_num < 1 or num_chars < 0:
+        # tested before the fraction is dropped: -0.5 is a negative count
+        return VALUE_ERROR
     start_num = int(start_num) - 1
     num_chars = int(num_chars)
-    if start_num < 0 or num_chars < 0:
-        return VALUE_ERROR
     return f'{old_text[:start_num]}{new_text}{old_text[start_num + num_chars:]}'
 
 
